@@ -126,6 +126,14 @@ func reorgStorm(r *ev.Run, caseID string) {
 			h = light[li]
 			li++
 		}
+		if (li+hi)%40 == 39 {
+			// now and then a peer delivers a header on the forbidden list: refused, and nothing else is held back
+			fb := mb.ForbiddenHeaders()[(li+hi)/40%2]
+			if si := mb.Step(st, m, fb); si.Res.Panic != nil || si.Res.Code() != mb.WantCode(si.Outcome) {
+				diverged = true
+				break
+			}
+		}
 		before := m.Best()
 		si := mb.Step(st, m, h)
 		if si.Res.Panic != nil || si.Res.Code() != mb.WantCode(si.Outcome) {
